@@ -85,9 +85,42 @@ def check_dunders(rep, rule, model, ci, dunders, wrappers, exceptions, other_pro
             if exc:
                 rep.ob(rule, fi, 'return ' + src(ret.value), True, 'documented non-standard branch: ' + exc, line=ret.lineno)
                 continue
+            ident = _identity_branch(fi, ret, core, op, reflected, other)
+            if ident:
+                rep.ob(rule, fi, 'return ' + src(ret.value), True, ident, line=ret.lineno)
+                continue
             ok, msg = _agrees(core, op, reflected, other, assigns, name)
             rep.ob(rule, fi, 'return ' + src(ret.value), ok, msg, line=ret.lineno)
     return n_branches
+
+
+IDENTITY = {ast.Add: (0, True), ast.Sub: (0, False), ast.Mult: (1, True), ast.Div: (1, False), ast.MatMult: (None, False)}
+
+
+def _identity_branch(fi, ret, core, op, reflected, other):
+    """`return self` (or a copy) under a guard `other == e` where e is the identity element of the operator on the
+    side `other` stands on: the value equals self OP other, so the branch agrees with the operator."""
+    e, both_sides = IDENTITY.get(op, (None, False))
+    if e is None or (reflected and not both_sides):
+        return None
+    c = core
+    if isinstance(c, ast.Call) and isinstance(c.func, ast.Attribute) and c.func.attr == 'copy' and not c.args:
+        c = c.func.value
+    if not (isinstance(c, ast.Name) and c.id == 'self'):
+        return None
+    node, par = ret, fi.module.parents.get(ret)
+    while par is not None and par is not fi.node:
+        if isinstance(par, ast.If) and node in par.body:
+            tests = par.test.values if isinstance(par.test, ast.BoolOp) and isinstance(par.test.op, ast.And) else [par.test]
+            for t in tests:
+                if isinstance(t, ast.Compare) and len(t.ops) == 1 and isinstance(t.ops[0], ast.Eq):
+                    a, b = t.left, t.comparators[0]
+                    for x, y in ((a, b), (b, a)):
+                        if isinstance(x, ast.Name) and x.id == other and isinstance(y, ast.Constant) and not isinstance(y.value, bool) \
+                                and isinstance(y.value, (int, float)) and y.value == e:
+                            return 'identity element: %s == %r, so the result equals self' % (other, e)
+        node, par = par, fi.module.parents.get(par)
+    return None
 
 
 def _agrees(core, op, reflected, other, assigns, name):
